@@ -500,10 +500,8 @@ impl Decode for Hunk<Modification> {
 
 impl Encode for Hunk<Modification> {
     fn encode(&self, w: &mut Writer) -> Result<(), Error> {
-        // TODO: Remove trailing newlines accurately.
-        // `trim_end()` will destroy diff information if the diff has a trailing whitespace on
-        // purpose.
-        w.magenta(self.header.from_utf8_lossy().trim_end())?;
+        // Nb. Only the line terminator is removed: trailing whitespace is part of the diff.
+        w.magenta(self.header.from_utf8_lossy().trim_end_matches('\n'))?;
         for l in &self.lines {
             l.encode(w)?;
         }
@@ -540,19 +538,36 @@ impl Decode for Modification {
     }
 }
 
+/// The content of a diff line without its line terminator.
+///
+/// Nb. Only the terminating `\n` is removed. Trailing whitespace (including `\r`) is part of
+/// the line: removing it would make the encoded diff differ from the diff it was made from.
+fn line_content(line: &str) -> &str {
+    line.strip_suffix('\n').unwrap_or(line)
+}
+
 impl Encode for Modification {
     fn encode(&self, w: &mut Writer) -> Result<(), Error> {
         match self {
             Modification::Deletion(radicle_surf::diff::Deletion { line, .. }) => {
-                let s = format!("-{}", String::from_utf8_lossy(line.as_bytes()).trim_end());
+                let s = format!(
+                    "-{}",
+                    line_content(&String::from_utf8_lossy(line.as_bytes()))
+                );
                 w.write(s, term::Style::new(term::Color::Red))?;
             }
             Modification::Addition(radicle_surf::diff::Addition { line, .. }) => {
-                let s = format!("+{}", String::from_utf8_lossy(line.as_bytes()).trim_end());
+                let s = format!(
+                    "+{}",
+                    line_content(&String::from_utf8_lossy(line.as_bytes()))
+                );
                 w.write(s, term::Style::new(term::Color::Green))?;
             }
             Modification::Context { line, .. } => {
-                let s = format!(" {}", String::from_utf8_lossy(line.as_bytes()).trim_end());
+                let s = format!(
+                    " {}",
+                    line_content(&String::from_utf8_lossy(line.as_bytes()))
+                );
                 w.write(s, term::Style::default().dim())?;
             }
         }
